@@ -337,6 +337,9 @@ class C19Engine(Engine):
             _, out, err, error = run_in_fresh_loop(main)
         finally:
             shutil.rmtree(tmp, ignore_errors=True)
+        if error and error.startswith("LIB:"):
+            fail("library/undocumented-exception-escaped", error[4:])
+            error = None
         if out or err:
             fail("io/printed-on-server-stdio", (out + err)[:200])
         return {"violations": viol, "labels": sorted(labels), "stats": {}, "inconclusive": state["inconclusive"], "error": error}
